@@ -31,6 +31,7 @@ import (
 //   C12:l1-ok-not-allowed / C12:l2-ok-not-allowed   OK although the signer holds no allowed role
 //   C12:l1-allowed-refused / C12:l2-allowed-refused a well-formed message of a role holder is ERR
 //   C12:err-changed-state                           an ERR changed an observable (partial batch)
+//   C12:batch-not-all-or-nothing                    an Ok batch differs from its inner messages applied one by one
 //   C12:binding-repointed                           bridge id / addr / chain id / set client id changed
 //   C12:signer-annotation                           GetMsgV1Signers does not return the probed field
 //   C12:l2-oracle-guard                             MsgUpdateOracle from a non-executor is not refused as unauthorized
@@ -645,7 +646,7 @@ func (g *c12L2) probe(kind string, signer string, depth int) (L2Op, bool) {
 			wf = false
 		}
 	case "withdraw":
-		o = L2Op{Kind: "withdraw", Sender: signer, To: "l1addr", Denom: sc.Native, Amt: big.NewInt(1)}
+		o = L2Op{Kind: "withdraw", Sender: signer, To: "l1addr", Denom: sc.L2Denoms[r.Intn(2)], Amt: big.NewInt(1)}
 		wf = false
 	case "exec":
 		_, _, auth := g.roles()
@@ -739,7 +740,30 @@ func (g *c12L2) do(o L2Op, wf, expectOK bool, class string) ExecResult {
 	if len(c.Obs) > 0 {
 		prev = c.Obs[len(c.Obs)-1]
 	}
+	// all-or-nothing, model-free: replay the inner messages one by one on a discarded branch
+	// of the pre-state; a successful batch must equal that replay, every step succeeding
+	l2Digest := func() string {
+		b := e.L2Obs(c.Track, ExecResult{}).(OL)
+		return (OL{b.V[1:7]}).Coq() + c12L2Extra(e).Coq()
+	}
+	innerAllOK, innerDigest := true, ""
+	if o.Kind == "exec" {
+		saved := e.Ctx
+		branch, _ := saved.CacheContext()
+		e.Ctx = branch
+		for _, im := range o.Inner {
+			if r := e.L2Exec(im); !r.OK {
+				innerAllOK = false
+				break
+			}
+		}
+		innerDigest = l2Digest()
+		e.Ctx = saved
+	}
 	res := e.L2Exec(o)
+	if o.Kind == "exec" && res.OK && (!innerAllOK || innerDigest != l2Digest()) {
+		rep.Violate(Violation{Case: c.ID, Step: len(c.Ops), What: fmt.Sprintf("ExecuteMessages succeeded but is not the inner messages applied one by one (every inner message succeeds alone in order: %v)", innerAllOK), Sig: "C12:batch-not-all-or-nothing", Ops: l2OpsHuman(append(c.Ops, o))})
+	}
 	c.Ops = append(c.Ops, o)
 	c.Results = append(c.Results, res)
 	c.Obs = append(c.Obs, ol(e.L2Obs(c.Track, res), c12L2Extra(e)))
@@ -845,6 +869,34 @@ func c12L2Case(seed uint64, id int, nProbes int, rep *Report) *L2Case {
 		if n%12 == 11 {
 			g.oracleProbe()
 		}
+		if n%9 == 8 {
+			// the CURRENT admin carries one message whose signer is not the authority but would
+			// pass the inner handler's own check (a listed executor's deposit / bridge info, a
+			// user's withdrawal): must be refused - the admin cannot act for other accounts
+			admin, execs, auth := g.roles()
+			var im L2Op
+			is := ""
+			for _, x := range execs {
+				if g.decode(x) != nil && !bytes.Equal(g.decode(x), g.decode(auth)) {
+					is = x
+				}
+			}
+			switch {
+			case is != "" && r.Chance(40):
+				im, _ = g.probe("fdep", is, 1)
+			case is != "" && r.Chance(60):
+				bi, _ := g.infoProbe(0)
+				im = L2Op{Kind: "setinfo", Sender: is, Info: bi}
+			default:
+				im, _ = g.probe("withdraw", e.User(uint64(1+r.Intn(6))).Str, 1)
+				if im.Sender == auth {
+					im.Sender = e.User(5).Str
+				}
+			}
+			sc.register(admin, im.Sender)
+			g.do(L2Op{Kind: "exec", Sender: admin, Inner: []L2Op{im}}, false, false, "admin-carrying-foreign-signer")
+			continue
+		}
 		if len(g.queue) > 0 {
 			f := g.queue[0]
 			g.queue = g.queue[1:]
@@ -878,9 +930,9 @@ func c12L2Case(seed uint64, id int, nProbes int, rep *Report) *L2Case {
 func genC12(seed uint64, tier string, outdir string) *Report {
 	rep := NewReport("C12", seed, tier)
 	rep.Rule = "a case is one history of signer probes on a fresh instance (L1 or L2); distinct by hash of the op list; non-trivial = at least one permissioned message succeeded and at least one was refused"
-	nCases, nProbes := 16, 60
+	nCases, nProbes := 40, 60
 	if tier == "thorough" {
-		nCases, nProbes = 160, 90
+		nCases, nProbes = 400, 90
 	}
 	var l1texts, l2texts []string
 	for k := 0; k < nCases; k++ {
